@@ -168,6 +168,11 @@ StoreConv(x0, D) == CHOOSE y \in {StoreConvV(x, D) : x \in {x0}} : TRUE
 \* string cells: [buf |-> seq of bytes 0..255, len |-> n, al |-> alloc]; scalars: [v |-> n]
 ByteAsChar(b, u8) == IF u8 \/ b < 128 THEN b ELSE b - 256
 
+\* what a bounds-checked s[i] tests the index against: the current length of a string (only the bytes of its present value
+\* are readable - what lies behind them would depend on the storage option and on whether delete frees), the full size of a
+\* raw output; unsafe indexing performs no test, there the capacity only separates a defined read from an undefined one
+IdxBound(D, cell, unsafe) == IF D.type = "str" /\ ~unsafe THEN cell.len ELSE D.size
+
 RECURSIVE Eval(_, _)
 RECURSIVE FoldArith(_, _, _, _, _)
 FoldArith(acc, cs, ops, i, env) ==
@@ -192,7 +197,7 @@ Eval(e, env) ==
                       IF "w" \in DOMAIN env.d[e.name] THEN Wide ELSE Ok(env.d[e.name].v, DeclType(D, env.cfg.packed))
     [] e.k = "len" -> Ok(env.d[e.name].len, CounterType(env.decl[e.name]))
     [] e.k = "idx" ->
-         LET D == env.decl[e.name] cell == env.d[e.name] size == D.size IN
+         LET D == env.decl[e.name] cell == env.d[e.name] size == IdxBound(D, cell, env.cfg.unsafe) IN
          CHOOSE res \in {
          IF i.s # "ok" THEN i
          ELSE IF i.v >= 0 /\ i.v < size
@@ -288,7 +293,7 @@ EvalW(e, env) ==
                       OkW(IF "w" \in DOMAIN cell THEN cell.w ELSE WFromInt(cell.v), DeclType(D, env.cfg.packed))
     [] e.k = "len" -> OkW(WFromInt(env.d[e.name].len), CounterType(env.decl[e.name]))
     [] e.k = "idx" ->
-         LET D == env.decl[e.name] cell == env.d[e.name] size == D.size IN
+         LET D == env.decl[e.name] cell == env.d[e.name] size == IdxBound(D, cell, env.cfg.unsafe) IN
          CHOOSE res \in {
          IF i.s # "ok" THEN i
          ELSE IF ~i.w.neg /\ WFitsInt(i.w) /\ WToInt(i.w) < size
